@@ -52,6 +52,9 @@ func (l *allOfValueLoader) begin(lex lexeme.LexEvent) {
 
 // arrayItemBeginOrArrayEnd begin of array item or array end.
 func (l *allOfValueLoader) arrayItemBeginOrArrayEnd(lex lexeme.LexEvent) {
+	if isNoteInsideAnnotation(lex) {
+		return
+	}
 	switch lex.Type() {
 	case lexeme.ArrayItemBegin:
 		l.stateFunc = l.arrayItemValue
